@@ -27,6 +27,7 @@ type runOpts struct {
 	latency                              bool
 	timers                               bool
 	bulk                                 bool // some reads return hundreds to thousands of records at once
+	slowKeyBy                            bool // key-by calls take 0..3 x MaxDelay: the reorder buffer fills, size and time-out flushes overlap
 }
 
 func pickOpts(r *rand.Rand) runOpts {
@@ -44,6 +45,7 @@ func pickOpts(r *rand.Rand) runOpts {
 	if o.keyGroups == 65535 && o.workers > 2 {
 		o.workers = 2
 	}
+	o.slowKeyBy = r.Intn(3) == 0
 	return o
 }
 
@@ -170,6 +172,14 @@ func newRun(c *lib.Ctx, o runOpts) *run {
 		x.cl.Latency = func(seq int) {
 			if h := lib.HashParts("lat", seed, seq); h[0] < '4' {
 				time.Sleep(time.Duration(h[1]%8) * 40 * time.Microsecond)
+			}
+		}
+	}
+	if o.slowKeyBy {
+		x.cl.KeyLatency = func(runner string, call int) {
+			h := lib.HashParts("keylat", seed, runner, call)
+			if h[0] < '8' { // half of the calls
+				time.Sleep(time.Duration(int(h[1])%7) * o.maxDelay / 2)
 			}
 		}
 	}
